@@ -154,7 +154,7 @@ def main():
                 distinct.add(str(scn["ops"])[:4000])
             cglib.compare_model(ck, scn, impl, model, "C12", fields=("new", "state"))
             if not (impl and isinstance(impl[-1], dict) and "exc" in impl[-1] and "tb" in impl[-1]):
-                spec_check(ck, scn, impl, sb)
+                common.guarded(ck, "C12-oracle", {"ops": scn["ops"]}, spec_check, ck, scn, impl, sb)
         f20_witness(ck, vsc)
         ck.sample({"scenario_ops": scns[0]["ops"][:3], "n_ops": len(scns[0]["ops"])})
         ck.cov.update({"distinct_nontrivial": len(distinct), "programs": len(scns),
@@ -172,4 +172,4 @@ def main():
 
 
 if __name__ == "__main__":
-    main()
+    common.run_main(main)
